@@ -233,11 +233,14 @@ def refusal(ctx, fn, rule, what, mechanisms, sinks, width=None, require_fail_err
 
 # ---------------- loops / reductions ----------------
 
+# adaptors that can drop, pair up or reorder the elements of a sequence (look-ups such as get/first/last/min are
+# not sequence transformers and are not listed)
 TRUNCATING = {"take", "skip", "step_by", "filter", "filter_map", "take_while", "skip_while", "map_while", "nth",
-              "last", "zip", "chunks", "chunks_exact", "windows", "split_at", "split_first", "split_last",
-              "truncate", "drain", "retain", "dedup", "peekable", "scan", "flat_map", "flatten", "find", "find_map",
-              "position", "rposition", "nth_back", "rchunks", "first", "pop", "split_off", "get", "rev", "min", "max",
-              "min_by_key", "max_by_key", "min_by", "max_by"}
+              "zip", "chunks", "chunks_exact", "rchunks", "windows", "split_at", "split_off", "truncate", "drain",
+              "retain", "dedup", "scan", "find", "find_map", "position", "rposition", "nth_back", "rev", "reverse",
+              "sort", "sort_by", "sort_by_key", "sort_unstable", "swap", "swap_remove", "remove", "pop",
+              "last", "first", "min", "max"}
+LOOKUPS = {"last", "first", "min", "max", "pop", "remove"}
 
 
 def adaptor_inventory(fn):
@@ -290,3 +293,266 @@ def err_only_region(fn, start, stop=frozenset()):
     r = fn.reach(start, stop=stop)
     ws = [(b, k) for (b, k, _) in ret_writes(fn) if b in r]
     return bool(ws) and all(k in ("err", "residual") for _, k in ws)
+
+
+def _outside_defs(fn, lp):
+    """locals with a whole definition outside the loop body (candidates for loop-carried state)"""
+    out = set()
+    for l, ds in fn.defs().items():
+        if any(d[1] not in lp["body"] for d in ds if d[0] in ("assign", "call")):
+            out.add(l)
+    for l in range(1, fn.arg_count + 1):
+        out.add(l)
+    return out
+
+
+def _ref_roots(fn):
+    """local -> set of root locals it may be a reference to (through `&mut x` / `&x` / reborrow / field borrow)"""
+    roots = {}
+    for l, ds in fn.defs().items():
+        for d in ds:
+            if d[0] == "assign" and d[3]["k"] in ("ref", "rawptr"):
+                roots.setdefault(l, set()).add(d[3]["place"]["l"])
+            elif d[0] == "assign" and d[3]["k"] == "use":
+                op = d[3]["op"]
+                src = op.get("copy") or op.get("move")
+                if src is not None and fn.local_ty(l).startswith("&"):
+                    roots.setdefault(l, set()).add(src["l"])
+    # transitive closure
+    changed = True
+    while changed:
+        changed = False
+        for l, rs in list(roots.items()):
+            for r in list(rs):
+                for rr in roots.get(r, ()):
+                    if rr not in rs:
+                        rs.add(rr)
+                        changed = True
+    return roots
+
+
+def is_drop_flag(fn, l):
+    if fn.local_ty(l) != "bool":
+        return False
+    ds = fn.defs().get(l, [])
+    return bool(ds) and all(d[0] == "assign" and d[3]["k"] == "use" and "const" in d[3]["op"] for d in ds)
+
+
+def accumulation_sites(fn, lp, innermost_only=None):
+    """{written outside-defined local: set(blocks in loop that write it)}; direct assignments and calls that receive
+    a `&mut` to it.  The loop's own iterator and drop flags are excluded."""
+    outside = _outside_defs(fn, lp)
+    roots = _ref_roots(fn)
+    iter_locals = set()
+    for b in lp["body"]:
+        t = fn.blocks[b].term
+        ci = callee_of(t)
+        if ci and ci.get("name") == "next" and t["args"]:
+            a = t["args"][0]
+            p = a.get("move") or a.get("copy")
+            if p:
+                iter_locals.add(p["l"])
+                iter_locals |= roots.get(p["l"], set())
+    acc = {}
+    for b in lp["body"]:
+        if innermost_only is not None and b not in innermost_only:
+            continue
+        blk = fn.blocks[b]
+        for s in blk.stmts:
+            if s["k"] != "assign":
+                continue
+            l = s["place"]["l"]
+            targets = {l} if l in outside else set()
+            if any(e == "*" for e in s["place"]["p"]):
+                targets |= {r for r in roots.get(l, ()) if r in outside}
+            for tl in targets:
+                if tl == 0 or tl in iter_locals or is_drop_flag(fn, tl):
+                    continue
+                if s["rv"]["k"] in ("ref", "rawptr", "discr"):
+                    continue
+                # storage re-initialisation of a temp that is also defined outside is not loop-carried unless
+                # it is read before being written; approximate: only locals that are user variables or mutable
+                acc.setdefault(tl, set()).add(b)
+        t = blk.term
+        if t["k"] == "call":
+            ci = callee_of(t)
+            if ci and ci.get("name") == "next" and (ci.get("trait") or "").endswith("Iterator"):
+                continue
+            d = t["dest"]["l"]
+            if d in outside and d != 0 and d not in iter_locals and is_bare(t["dest"]) and not is_drop_flag(fn, d):
+                acc.setdefault(d, set()).add(b)
+            for a, aty in zip(t["args"], t.get("arg_tys", [])):
+                if not aty.startswith("&mut"):
+                    continue
+                p = a.get("move") or a.get("copy")
+                if not p:
+                    continue
+                for r in roots.get(p["l"], set()) | ({p["l"]} if not fn.local_ty(p["l"]).startswith("&") else set()):
+                    if r in outside and r not in iter_locals:
+                        acc.setdefault(r, set()).add(b)
+    # keep only locals that are really carried: used/defined outside the loop as user-visible state
+    names = fn.var_names()
+    return {l: bs for l, bs in acc.items() if l in names}
+
+
+def loop_report(prog, fn):
+    """shape facts of every natural loop: exits (exhausted / error / break), skippable accumulations."""
+    v = FnView.get(prog, fn)
+    out = []
+    loops = fn.loops()
+    for lp in loops:
+        inner = set(lp["body"])
+        for other in loops:
+            if other is not lp and other["body"] < lp["body"]:
+                inner -= (other["body"] - {other["header"]}) if False else set()
+        info = {"header": lp["header"], "body": lp["body"], "line": fn.blocks[lp["header"]].term["span"]["line"]}
+        # exhaustion edge: `next()` is None
+        next_bbs = [b for b in lp["body"] if (callee_of(fn.blocks[b].term) or {}).get("name") == "next"]
+        exhausted = set()
+        some_targets = set()
+        for (e, fact) in v.facts:
+            if e[0] in lp["body"] and fact[0] == "succ" and is_call(fact[1], name="next"):
+                site = fact[1][3]
+                if site[1] in next_bbs:
+                    if not fact[2] and e[1] not in lp["body"]:
+                        exhausted.add(e)
+                    if fact[2]:
+                        some_targets.add(e[1])
+        # while-style loops: exit edges from the header's own condition
+        exits = loop_exits(fn, lp)
+        cls = []
+        after = set()
+        for e in exhausted:
+            after |= fn.reach(e[1])
+        retw = {b for (b, k, _) in ret_writes(fn)}
+        effectful = {b for b in after if fn.blocks[b].term["k"] == "call" or b in retw}
+        for e in exits:
+            if e in exhausted:
+                cls.append((e, "exhausted"))
+            elif not fn.reach(e[1]) & {b for b in fn.normal_blocks() if fn.blocks[b].term["k"] == "return"}:
+                cls.append((e, "diverge"))
+            elif err_only_region(fn, e[1]) and not (fn.reach(e[1]) & effectful):
+                # returns an error without running any of the code that follows the loop
+                cls.append((e, "error"))
+            else:
+                cls.append((e, "break"))
+        info["exits"] = cls
+        info["iter"] = bool(next_bbs)
+        info["iter_term"] = None
+        for b in next_bbs:
+            info["iter_term"] = v.cx.operand(fn.blocks[b].term["args"][0])
+        # skippable accumulations
+        acc = accumulation_sites(fn, lp)
+        entry = list(some_targets) or [lp["header"]]
+        skips = {}
+        for l, bs in acc.items():
+            # can control go from the body entry back to the header without passing a write of l?
+            seen = set()
+            todo = [x for x in entry if x not in bs]
+            hit = False
+            while todo and not hit:
+                n = todo.pop()
+                if n in seen:
+                    continue
+                seen.add(n)
+                for (t, lab) in fn.succs()[n]:
+                    if t == lp["header"] and n != lp["header"]:
+                        hit = True
+                        break
+                    if t in lp["body"] and t not in bs and t not in seen:
+                        todo.append(t)
+                if n == lp["header"] and n in entry:
+                    pass
+            if entry == [lp["header"]]:
+                # header is the entry: a path header -> ... -> header
+                pass
+            skips[l] = hit
+        info["acc"] = acc
+        info["skippable"] = skips
+        info["some_targets"] = some_targets
+        out.append(info)
+    return out
+
+
+def body_reach(fn, lp, starts, removed_blocks=frozenset(), removed_edges=frozenset()):
+    """blocks of the loop body reachable from starts without leaving the body; also whether the header is re-entered"""
+    seen = set()
+    todo = [x for x in starts if x not in removed_blocks]
+    back = False
+    while todo:
+        n = todo.pop()
+        if n in seen:
+            continue
+        seen.add(n)
+        for (t, lab) in fn.succs()[n]:
+            if (n, t, lab) in removed_edges:
+                continue
+            if t == lp["header"]:
+                back = True
+                continue
+            if t in lp["body"] and t not in removed_blocks and t not in seen:
+                todo.append(t)
+    return seen, back
+
+
+def reductions(ctx, key, adaptors=None, skip=None, brk=None, min_loops=0, rule="RED", exclude_loops=()):
+    """Engine D on one function: (ii) the truncating/reordering adaptors are exactly the reviewed ones;
+    (iii) no iteration can skip an accumulation and no exit other than exhaustion / an error return leaves a loop,
+    except under the reviewed conditions (fact matchers).
+    skip: {variable name: fact matcher for edges on which skipping is allowed}
+    brk:  list of fact matchers for edges under which a non-error exit is allowed"""
+    f = ctx.anchor(key)
+    if not f:
+        return None
+    adaptors = adaptors or {}
+    skip = skip or {}
+    brk = brk or []
+    inv = {k: n for k, n in adaptor_inventory(f).items() if k not in LOOKUPS}
+    ctx.check(inv == adaptors, rule, key, "adaptors",
+              "the set of element-dropping/reordering adaptors in %s is %s, reviewed set is %s: a reduction over "
+              "participants/coefficients/items may no longer cover every element (or its order changed)"
+              % (key, inv, adaptors), f.loc, {"found": inv})
+    v = FnView.get(ctx.prog, f)
+    names = f.var_names()
+    lr = [lp for lp in loop_report(ctx.prog, f) if lp["line"] not in exclude_loops]
+    if len(lr) < min_loops:
+        ctx.violation(rule, key, "loops-missing", "expected at least %d loops in %s, found %d (the reduction was "
+                      "restructured; the rule instance must be re-reviewed)" % (min_loops, key, len(lr)), f.loc)
+    for n, lp in enumerate(sorted(lr, key=lambda x: x["header"])):
+        tag = "loop%d" % n
+        # exits
+        for (e, c) in lp["exits"]:
+            if c != "break":
+                continue
+            allowed = False
+            for m in brk:
+                edges = {ed for (ed, fact) in v.facts if m(fact) == "pass"}
+                if e in edges:
+                    allowed = True
+                    break
+                seen, _ = body_reach(f, lp, list(lp["some_targets"]) or [lp["header"]], removed_edges=edges)
+                if e[0] not in seen:
+                    allowed = True
+                    break
+            ctx.check(allowed, rule, key, tag + ":early-exit",
+                      "a path leaves the loop at %s before the sequence is exhausted without returning an error "
+                      "(not under a reviewed condition): elements after it are not processed"
+                      % loc_of(f, e[0]), loc_of(f, e[0]))
+        # skips
+        for l, can_skip in lp["skippable"].items():
+            nm = names.get(l, str(l))
+            if not can_skip:
+                ctx.ok(rule, key, "%s:%s:every-iteration" % (tag, nm))
+                continue
+            m = skip.get(nm)
+            ok = False
+            if m is not None:
+                edges = {ed for (ed, fact) in v.facts if m(fact) == "pass"}
+                _, back = body_reach(f, lp, list(lp["some_targets"]) or [lp["header"]],
+                                      removed_blocks=lp["acc"][l], removed_edges=edges)
+                ok = not back
+            ctx.check(ok, rule, key, "%s:%s:every-iteration" % (tag, nm),
+                      "an iteration of the loop at %s can reach the next iteration without updating `%s` (other than "
+                      "under the reviewed condition): some element is left out of the reduction"
+                      % (loc_of(f, lp["header"]), nm), loc_of(f, lp["header"]))
+    return lr
